@@ -171,7 +171,9 @@ class BitString(Type):
 
     def __init__(self, name, minimum, maximum):
         super(BitString, self).__init__(name, 'BIT STRING')
+        self.set_size_range(minimum, maximum, False)
 
+    def set_size_range(self, minimum, maximum, has_extension_marker):
         if minimum is None and maximum is None:
             self.size = None
         elif minimum == maximum:
